@@ -19,7 +19,7 @@ ASSUMPTIONS = [
     "only the refresh *interval* handed to the controller is shortened (schedule exploration); tRP/tRFC/... are the module's",
 ]
 MIN_NONTRIVIAL = {"quick": 8, "thorough": 60}
-CLASSES = ["cold-rows", "direction-flips", "row-conflict", "bank-sweep", "write-then-conflict", "mixed"]
+CLASSES = ["cold-rows", "direction-flips", "row-conflict", "bank-sweep", "write-then-conflict", "mixed", "write-pair-sweep"]
 
 
 def cases(tier, seed):
